@@ -266,10 +266,10 @@ class Enc:
             what="the result starts with the RTF signature, is one top-level group whose depth returns to 0 exactly at the last "
                  "character, with nothing after it"))
     # O5: column header rendering tolerates every accepted header configuration
-    for h1v in range(4):
+    for h1v in range(6):
       obs.append(Ob(
         oid="O5.column_headers.h%d" % h1v, sig="h2: int, as_colheader: bool, first: bool, has_pf: bool" + ("" if quick else ", nested: bool"),
-        pre=["0 <= h2 <= 3"], timeout=T * 2,
+        pre=["0 <= h2 <= 5"], timeout=T * 2,
         header=HDR1 + r'''
 from vf import minipl
 from rtflite.encoding.renderer import PageRenderer
@@ -282,10 +282,15 @@ def mkh(kind):
         return rtf.RTFColumnHeader(text=["A", "B"])
     if kind == 2:
         return rtf.RTFColumnHeader()                       # text None: auto header when as_colheader
-    return rtf.RTFColumnHeader(text=["Span"], col_rel_width=[2])
+    if kind == 3:
+        return rtf.RTFColumnHeader(text=["Span"], col_rel_width=[2])
+    # widths inherited at construction from a 3-column body of which page_by/subline_by left 2 columns on display
+    if kind == 4:
+        return rtf.RTFColumnHeader(col_rel_width=[1.0, 1.0, 1.0])
+    return rtf.RTFColumnHeader(text=["A", "B"], col_rel_width=[1.0, 1.0, 1.0])
 ''',
         body=("\n    h1 = %d" % h1v) + ("\n    nested = False" if quick else "") + r'''
-    hs = [h for h in (mkh(concrete_int(h1, 0, 3)), mkh(concrete_int(h2, 0, 3))) if h is not None]
+    hs = [h for h in (mkh(concrete_int(h1, 0, 5)), mkh(concrete_int(h2, 0, 5))) if h is not None]
     headers = [hs, [None]] if nested else hs
     r = PageRenderer()
     doc = NS(rtf_column_header=headers, rtf_body=NS(as_colheader=as_colheader, col_rel_width=[1.0, 1.0]),
@@ -310,7 +315,8 @@ def mkh(kind):
         funcs=["rtflite.encoding.renderer:PageRenderer._render_column_headers", "rtflite.services.encoding_service:RTFEncodingService.encode_column_header",
                "rtflite.attributes:TableAttributes._encode"],
         stubs=["polars -> vf.minipl model", "TextContent -> model_construct"],
-        bounds="0..2 header rows, each explicit | without text | single spanning cell; as_colheader, first page, page border_first, nested "
+        bounds="0..2 header rows, each explicit | without text | single spanning cell | without text resp. explicit with widths inherited "
+               "from a 3-column body of which 2 columns are displayed; as_colheader, first page, page border_first, nested "
                "list format: all symbolic; real RTFColumnHeader objects and the real encoders",
         what="rendering the column headers of any accepted configuration (as_colheader=False and headers without text included) raises "
              "nothing but ValueError and yields well-formed rows with as many boundaries as contents"))
@@ -365,6 +371,12 @@ def mkh(kind):
                    "last or not; dividing or not; solver-enumerated shapes)" % ("border_top" if top else "border_bottom"),
             what="every accepted attribute shape - including recycled patterns that do not divide the table - goes through the per-page "
                  "border pass without an exception and yields full grids for the borders and for per-row text attributes"))
+    # O9: sections of different column counts get their own default widths at construction (shared with C08-O8)
+    from .C08 import build as c08_build
+    for ob in c08_build(tier, seed)[0]:
+        if ob.oid == "O8.shared_components":
+            ob.oid = "O9.section_widths"
+            obs.append(ob)
     meta = {
         "explanation": "Whole-pipeline crash freedom runs through pydantic-core and polars and cannot be encoded; what is decided is "
                        "that every emitter produces a balanced, lexically valid fragment for EVERY attribute value (numbers kept "
